@@ -27,7 +27,15 @@ def gen(rng, tier):
     for _ in range(300 if quick else 4000):
         sigma = rng.choice(['a', 'ab', 'abc', 'ab', ''])
         ns.append(G.random_nfa(rng, rng.randint(1, 6), sigma, rng.choice(['_', '', 'e']), peps=rng.choice([0.0, 0.25, 0.5])))
-    return [{'N': n} for n in ns]
+    cases = [{'N': n} for n in ns]
+    # the same NFA object is modified in place (transitions added / removed, accepting set changed) and determinised again
+    for _ in range(120 if quick else 1500):
+        sigma = rng.choice(['a', 'ab'])
+        k = rng.randint(1, 5)
+        n1 = G.random_nfa(rng, k, sigma, '_', peps=0.3)
+        n2 = G.random_nfa(rng, k, sigma, '_', peps=0.3)
+        cases.append({'N': n1, 'then': n2})
+    return cases
 
 
 def observe(c):
@@ -36,7 +44,17 @@ def observe(c):
     N = conv.nfa_obj(c['N'])
     before = conv.nfa_case(N)
     r = safe(nfa_to_dfa, N)
-    return {'D': conv.dfa_case(r[1]) if ok(r) else None, 'unchanged': conv.nfa_case(N) == before}
+    out = {'D': conv.dfa_case(r[1]) if ok(r) else None, 'unchanged': conv.nfa_case(N) == before}
+    if c.get('then'):
+        n2 = c['then']
+        N.delta.clear()
+        for (q, a, qs) in n2['delta']:
+            N.delta[(q, a)] = set(qs)
+        N.F.clear()
+        N.F.update(n2['F'])
+        r2 = safe(nfa_to_dfa, N)
+        out['D2'] = conv.dfa_case(r2[1]) if ok(r2) else None
+    return out
 
 
 def _parse_set(name, st, idx):
@@ -49,9 +67,15 @@ def _parse_set(name, st, idx):
 
 
 def encode(c, o):
-    n = c['N']
+    t = _encode1(c['N'], o['D'], o['unchanged'])
+    if c.get('then'):
+        t = 'worst_code [%s; %s]' % (t, _encode1(c['then'], o.get('D2'), True))
+    return t
+
+
+def _encode1(n, d, unchanged):
+    o = {'unchanged': unchanged}
     lit, st, f = nfa_lit(n)
-    d = o['D']
     if d is None:
         return 'judge_C03 %s None %s' % (lit, L.boolean(o['unchanged']))
     names = {q: _parse_set(q, st, i) for i, q in enumerate(d['Q'])}
